@@ -25,10 +25,10 @@ OPS = {'and': ('&', lambda a, b: a & b), 'or': ('|', lambda a, b: a | b), 'xor':
 
 def describe(tier):
     q = tier == 'quick'
-    return dict(bounds=dict(options_lsb0='False for everything; True for all unary/shift events and all pairs of length <= 4', pairs='all ordered pairs of contents of length <= %d' % (7 if q else 9),
+    return dict(bounds=dict(options_lsb0='False for everything; True for all unary/shift events and all pairs of length <= 4', pairs='all ordered pairs of contents of length <= %d' % (7 if q else 10),
                             edge_lengths=[63, 64, 65, 127, 128, 129] + ([] if q else [255, 256, 257, 1023, 1024, 1025, 2000, 2001]),
                             left_classes=list(CLASSES), right='4 classes + promotable forms (str, list, tuple, generator, bitarray, bytes...)',
-                            shifts='n in [-2, L+2] U {64, 10**9}', self_operand=True, views='operands built through %d view / derived routes (length-limited files, offsets, BytesIO, slices, little-endian bitarray) for all pairs of contents of length <= %d' % (len(VIEW_ROUTES), 4 if q else 5)),
+                            shifts='n in [-2, L+2] U {64, 10**9}', self_operand=True, views='operands built through %d view / derived routes (length-limited files, offsets, BytesIO, slices, little-endian bitarray) for all pairs of contents of length <= %d' % (len(VIEW_ROUTES), 4 if q else 6)),
                 rule='each (pair, operator, class combination) executed once; non-trivial = model outcome is a value (equal lengths, '
                      'non-empty where required) rather than the documented rejection',
                 assumptions=['Python int arithmetic is the definition of the per-bit boolean functions'])
@@ -36,13 +36,13 @@ def describe(tier):
 
 def shards(tier, seed):
     q = tier == 'quick'
-    n = 7 if q else 9
+    n = 7 if q else 10
     conts = list(families.all_bits(n))
     out = [dict(kind='pairs', left=part, n=n) for part in families.chunk(conts, 48)]
     Ls = [63, 64, 65, 127, 128, 129] + ([] if q else [255, 256, 257, 1023, 1024, 1025, 2000, 2001])
     for L in Ls:
         out.append(dict(kind='edge', L=L, seed=seed))
-    vconts = list(families.all_bits(4 if q else 5)) + ['10110010', '1011001000000001', '101100100']
+    vconts = list(families.all_bits(4 if q else 6)) + ['10110010', '1011001000000001', '101100100']
     for part in families.chunk(vconts, 12):
         out.append(dict(kind='views', left=part, conts=vconts))
     return out
